@@ -195,3 +195,26 @@ def restore_case(case, d):
         "t": case.get("t"), "input": case.get("input"), "pretext": case.get("pretext"), "design": case.get("design"),
         "pieces": case.get("pieces"), "labels": case.get("labels") or [], "prefix": case.get("prefix", "SUPER_"),
     }
+
+
+def add_tag_noise(rng, cr):
+    """Make some Pretext scaffolds carry several special tags (other spellings of a haplotype,
+    a second name tag, ...) and rewrite pretext.agp.  Such maps may be rejected - but always
+    in the same way."""
+    pt = cr["pretext"]
+    pool = ["Hap1", "HAP1", "hap1", "Hap2", "HAP2", "X", "Y", "B1", "Singleton", "Primary", "Target", "Hap3"]
+    for _ in range(rng.randint(1, 3)):
+        sc = rng.choice(pt)
+        frs = [r for r in sc[1] if r[0] == "F"]
+        existing = {t for r in frs for t in r[5]}
+        r = rng.choice(frs)
+        cand = []
+        for t in existing:
+            if t.lower() in ("hap1", "hap2"):
+                cand += [x for x in (t.upper(), t.lower(), t.capitalize()) if x != t]
+        cand += rng.sample(pool, 2)
+        for t in rng.sample(cand, min(len(cand), rng.randint(1, 2))):
+            if t not in r[5]:
+                r[5].append(t)
+    (cr["dir"] / "pretext.agp").write_text(gpv.pretext_agp_text(pt, cr["t"]))
+    cr["labels"] = sorted(set(cr.get("labels", [])) | {"tag:noise-several-special-tags"})
